@@ -1,0 +1,24 @@
+//go:build verif
+
+// Machine-checked contracts for this package (comment-only; compiled only with -tags verif,
+// and even then contributes no code).  Read by /verif/govc; see /verif/DESIGN.md.
+
+package nftables
+
+//@ -- ---------------------------------------------------------------- C10: programming the dispatch verdict maps
+//@ -- (thin) AddOrReplaceMap reconciles the DESIRED member set with the new table: a member is added (and its chain
+//@ -- referenced) exactly when the desired set does not already hold it - whatever is still in the dataplane, e.g.
+//@ -- an element whose deletion is pending, plays no part - and a member is dropped from the desired set only when
+//@ -- the new table lacks it.
+//@ func (*Maps).AddOrReplaceMap$2
+//@   property C10
+//@   option safety off
+//@   ghost at call Contains: check arg0 == *desiredMembers && arg1 == m
+//@   ghost at call Add: check arg0 == *desiredMembers && arg1 == m
+//@   ghost at call maybeIncrefChain: check arg1 == m
+//@ func (*Maps).AddOrReplaceMap$1
+//@   property C10
+//@   option safety off
+//@   ghost at call Contains: check arg0 == *canonMembers && arg1 == k
+//@   ghost at call Delete: check arg0 == *desiredMembers && arg1 == k
+//@   ghost at call maybeDecrefChain: check arg1 == k
